@@ -108,6 +108,10 @@ def run(chk):
                           % (C.b2s(list(fn)), ir), desc)
         elif mr[0] != ir or not mr[1]:
             chk.broken("correspondence: model url_join / url_plain differs from the url crate on a role file name", desc)
+    # FilesystemTransport opens the URL path as it stands: a file planted where the percent-decoded spelling of a role
+    # file name points (a sub-directory, the parent directory, another entry) is never what a request for the encoded name gets
+    from lib import urlcheck
+    urlcheck.decoded_twins(chk)
     sites(chk)
     return chk
 
